@@ -640,7 +640,7 @@ struct ChannelWorld : World {
             if (accept) c.run->violation("C02", "accepts_forgery", site, fmt("clen=%zu adlen=%zu result=%d", x.size(), ad.size(), r));
             else {
                 c.run->probe(x.size() < 16 ? "deliver.rejected_short" : "deliver.rejected");
-                if (cls != INC && x.size() >= 16 && !wiped)
+                if (cls != INC && !is_cpp(B.fam) && x.size() >= 16 && !wiped) // stated for the one-shot (C) decryption functions
                     c.run->violation("C02", "plaintext_not_wiped", site, fmt("clen=%zu: plaintext buffer holds non-zero bytes after failed one-shot decrypt", x.size()));
             }
         }
